@@ -11,7 +11,7 @@ import textwrap
 
 class Loop:
     def __init__(self, inv=(), decreases=None, index=None, seq=None, locals=None, modifies=None,
-                 lemmas=(), havoc_extra=(), keep=(), at_end=(), at_head=()):
+                 lemmas=(), havoc_extra=(), keep=(), at_end=(), at_head=(), at_exit=()):
         self.inv = [inv] if isinstance(inv, str) else list(inv)
         self.decreases = decreases
         self.index = index          # name under which the hidden iteration index is visible in invariants
@@ -23,6 +23,9 @@ class Loop:
         self.keep = list(keep)
         self.at_end = [at_end] if isinstance(at_end, str) else list(at_end)
         self.at_head = [at_head] if isinstance(at_head, str) else list(at_head)
+        # conditions proved (and then assumed) in every state that leaves the loop (exhaustion or break); entry(e) inside them is the
+        # value of e when the loop was entered
+        self.at_exit = [at_exit] if isinstance(at_exit, str) else list(at_exit)
 
 
 class Mod:
